@@ -505,6 +505,45 @@ def fam_native(case):
 
 
 # ----------------------------------------------------------------------------------------------
+
+def fam_reuse(case):
+    """One binner object answers a sequence of bindown calls on different native grids, spectra (1-D / 2-D) and
+    errors; every answer must equal the overlap reference (and therefore what a fresh binner returns): no state
+    may leak from one call to the next."""
+    from taurex.binning import FluxBinner, SimpleBinner
+    r = core.R(case)
+    fx.reset_caches()
+    tc = np.array([11.0, 15.0, 21.0, 40.0])
+    tw = np.array([3.0, 4.0, 6.0, 30.0])
+    fb = FluxBinner(tc.copy(), tw.copy())
+    calls = []
+    for letter, n, gw, dim, err in case['seq']:
+        c, w = native(letter, n)
+        w_eff = eff_width(c, w, gw)
+        names, S = spectra(letter, n)
+        E = errors(letter, n, S.shape[0])
+        s = S[-3] if dim == 1 else S[-3:]
+        e = None if err == 'none' else (E['distinct'] if dim == 1 else E['2d'][-3:])
+        calls.append((letter, n, gw, dim, err))
+        tag = '>'.join('%s%d%s' % (a[0], a[3], 'e' if a[4] != 'none' else '') for a in calls)
+        got = fb.bindown(c.copy(), s.copy(), grid_width=(w.copy() if gw == 'explicit' else None),
+                         error=None if e is None else e.copy())
+        val, er, sumw, W = ref.overlap_bin(c, w_eff, s, tc, tw, e)
+        ok = sumw > 1e-9 * tw
+        gv = np.asarray(got[1], float)
+        r.eq(gv[..., ok], val[..., ok], 'reuse-value', 'reuse/value/%d-calls' % len(calls), rtol=1e-9, seq=tag)
+        if e is not None:
+            ge = np.asarray(got[2], float)
+            r.eq(ge[..., ok], er[..., ok], 'reuse-error', 'reuse/error/%d-calls' % len(calls), rtol=1e-9, seq=tag)
+        else:
+            r.check(got[2] is None, 'reuse-error-none', 'reuse/error-not-none/%d-calls' % len(calls), seq=tag)
+        r.eq(np.asarray(got[0], float), tc, 'reuse-grid', 'reuse/grid', rtol=0)
+        r.eq(np.asarray(got[3], float), tw, 'reuse-width', 'reuse/width', rtol=0)
+        r.observe(gv)
+    r.nontrivial = True
+    return r
+
+
 def explore(ctx):
     thorough = ctx.tier == 'thorough'
     ns = [2, 3, 4, 5, 6]
@@ -572,3 +611,15 @@ def explore(ctx):
 
     nc = [{'grid': g, 'n': n} for g in GRIDS for n in (2, 3, 4)]
     ctx.run_cases('fam_native', nc, phase='native', chunk=1)
+    calls = [[g, n, gw, dim, err] for g, n in (('uniform', 4), ('unequal', 6), ('log', 3))
+             for gw in ('explicit', 'none') for dim in (1, 2) for err in ('none', 'distinct')]
+    depth = 3 if thorough else 2
+    rc = []
+    for d in range(2, depth + 1):
+        if d == 2:
+            rc += [{'seq': [list(a), list(b)]} for a in calls for b in calls]
+        else:
+            sub = calls[::3]
+            rc += [{'seq': [list(x) for x in t]} for t in itertools.product(sub, repeat=d)]
+    ctx.bounds.update(reuse_sequences=len(rc), reuse_depth=depth)
+    ctx.run_cases('fam_reuse', rc, phase='reuse')
